@@ -121,3 +121,14 @@ Proof.
   destruct (spec_put_id m_id (vs_next s) (t0 :: ts)) as [er|[id nx]]; cbn [fst vs_l]; [exact Hc|].
   apply Forall_app. split; [exact Hc|]. constructor; [cbn; lia|constructor].
 Qed.
+
+(* the FiniteReplayer specification never holds more than N events: its size is
+   min(N, number of accepted Puts) after every history *)
+Lemma fs_never_more_than_n :
+  forall n auto ops, 0 < n ->
+  length (fs_l (fs_after (fs_new n auto) ops)) <= n /\
+  length (fs_l (fs_after (fs_new n auto) ops)) = Nat.min n (length (fs_accepted (fs_new n auto) ops)).
+Proof.
+  intros n auto ops Hn. rewrite (fs_buffer_last_n n auto ops Hn), lastn_length.
+  split; [apply Nat.le_min_l | reflexivity].
+Qed.
